@@ -11,7 +11,7 @@
     [rebuild_unaligned_refuted], [rebuild_diverged_refuted]: what happens outside the hypotheses. *)
 From Coq Require Import List Arith Bool NArith Lia.
 From Jiva Require Import Block.Model Block.Corr Block.Lemmas Block.ProofsWrite Block.ProofsUnit Block.ProofsRead
-     Block.ProofsOps Block.ProofsPreload Block.Rebuild Block.RebuildLemmas Block.RebuildCorr.
+     Block.ProofsOps Block.ProofsPreload Block.Refine Block.Proofs Block.Rebuild Block.RebuildLemmas Block.RebuildCorr.
 Import ListNotations.
 
 (** ** the source: a replica in service, its reclamation asynchronous *)
@@ -277,4 +277,758 @@ Proof.
   - destruct He as (A & B). apply (inv1_mono K c P); [now apply inv1_write|]. intros i b _ [Hp|[]]. exact Hp.
   - now apply inv1_copy.
   - apply (inv1_mono K c P); [now apply inv1_srchole|]. intros i b _ [Hp|[]]. exact Hp.
+Qed.
+
+(** ** rebuild, after the destination's Reload *)
+Record inv2 (K c : nat) (s : rb) : Prop := {
+  i2_src : sinv K (src s) (spend s);
+  i2_dst : dinv K (dst s) (dpend s) (uph s);
+  i2_nf : nf (dst s) = nf (src s);
+  i2_nblk : nblk (dst s) = nblk (src s);
+  i2_c : c < nf (src s);
+  i2_rel : reloaded s = true;
+  i2_head : forall b, fl (dst s) (nf (src s)) b = fl (src s) (nf (src s)) b;
+  i2_live : forall b, top (fl (dst s)) (nf (src s)) b = top (fl (src s)) (nf (src s)) b;
+  i2_user : forall J b, c <= J < nf (src s) -> usr (src s) J = true -> rmd (src s) J = false ->
+                        top (fl (dst s)) J b = top (fl (src s)) J b;
+  i2_keep : forall J, c <= J < nf (src s) -> 1 <= J -> usr (src s) J = true -> keeps (dst s) J;
+  i2_E : forall i b, c < i < nf (src s) -> fl (dst s) i b <> None ->
+                     fl (src s) i b <> None \/ fl (src s) (nf (src s)) b <> None
+}.
+
+Definition post_ev (e : ev) : Prop :=
+  match e with
+  | BothWrite _ _ | SrcHole _ _ | DstHole _ _ | UlmBegin | UlmPre | UlmMerge => True
+  | _ => False
+  end.
+
+Lemma top_at_head : forall f n b, 1 <= n ->
+  top f n b = match f n b with Some v => Some v | None => top f (n - 1) b end.
+Proof. intros f n b H. destruct n as [|n]; [lia|]. rewrite top_S. replace (S n - 1) with n by lia. reflexivity. Qed.
+
+(** the Reload, once every block of every closed file above the sync point has been copied *)
+Lemma inv1_reload : forall K c P s, inv1 K c P s ->
+  (forall i b, c < i < nf (src s) -> b < nblk (src s) -> P i b) ->
+  inv2 K c (step true K s DstReload).
+Proof.
+  intros K c P s I Hall. cbn [step]. rewrite (i1_rel0 _ _ _ _ I), (i1_wired _ _ _ _ I).
+  destruct I as [I_src I_nf I_nblk I_c I_rel0 I_wired I_dpend I_head I_usr I_files I_rel I_low].
+  pose proof (sv_wf _ _ _ I_src) as W. pose proof (wf_nf _ _ W) as Hnf.
+  destruct I_files as (F1 & F2).
+  set (d := dst s) in *.
+  assert (Ed : dst_reload true d =
+               mkdd (nf d) (fl d) (nm d) (usr d) (rmd d) (aligned_ucs d) (last_true (aligned_ucs d) (nf d) 0)
+                    (fun _ => 0) (nblk d) true) by reflexivity.
+  (* every closed file above the sync point is related, at every block *)
+  assert (Hrel : forall i b, c < i < nf (src s) -> rel (src s) d i b).
+  { intros i b Hi. destruct (Nat.lt_ge_cases b (nblk (src s))) as [Hb|Hb]; [apply I_rel; auto|].
+    left. rewrite (wf_ext _ _ W) by assumption. apply F1. rewrite I_nblk. assumption. }
+  assert (Hfiles : forall J b, c <= J < nf (src s) ->
+            (fl (src s) (nf (src s)) b = None \/ J <= snapix (src s)) -> top (fl d) J b = top (fl (src s)) J b).
+  { intros J b HJ Hcase. apply (top_split _ _ c J b); [lia| |].
+    - intros i Hi. destruct (Hrel i b ltac:(lia)) as [E|(_ & E2 & E3)]; [assumption|].
+      destruct Hcase as [Hc|Hc]; [congruence|lia].
+    - destruct (I_low b) as [L|(R1 & R2)]; [assumption|]. destruct Hcase as [Hc|Hc]; [congruence|lia]. }
+  constructor; cbn [src dst spend dpend lowc wired reloaded uph drev]; rewrite ?Ed; cbn [nf fl nblk usr rmd].
+  - exact I_src.
+  - constructor.
+    + constructor; cbn [nf fl loc nblk]; [lia|intros b; left; reflexivity|assumption|assumption].
+    + intros k Hk HF. cbn [nf ucs snapix] in *. apply last_true_ge; assumption.
+    + rewrite I_dpend. apply pend_cov_nil.
+    + rewrite I_dpend. intros f s' l [].
+    + exact I.
+  - exact I_nf.
+  - exact I_nblk.
+  - exact I_c.
+  - reflexivity.
+  - exact I_head.
+  - intros b. rewrite (top_at_head (fl d)), (top_at_head (fl (src s))) by lia. rewrite I_head.
+    destruct (fl (src s) (nf (src s)) b) as [v|] eqn:Eh; [reflexivity|].
+    apply Hfiles; [lia|left; exact Eh].
+  - intros J b HJ Hu Hr. destruct (Nat.eq_dec J 0) as [->|N0]; [reflexivity|].
+    apply Hfiles; [assumption|right]. apply (sv_prot _ _ _ I_src J); [lia|assumption|assumption].
+  - intros J HJ H1 Hu. right. cbn [nf ucs]. split; [lia|]. left. unfold aligned_ucs.
+    destruct (Nat.leb_spec 1 J); [|lia]. destruct (Nat.leb_spec J (nf d)); [|lia]. cbn [andb]. rewrite I_usr. exact Hu.
+  - intros i b Hi Hext. destruct (Hrel i b Hi) as [E|(_ & E2 & _)]; [left; congruence|right; assumption].
+Qed.
+
+Lemma inv2_write : forall K c s off data, 0 < K -> inv2 K c s -> inv2 K c (step true K s (BothWrite off data)).
+Proof.
+  intros K c s off data HK I. cbn [step].
+  destruct (Nat.ltb_spec (nblk (src s) * K) (off + length data)) as [Hout|Hin]; [exact I|].
+  rewrite (i2_rel _ _ _ I). unfold src_write.
+  destruct I as [I_src I_dst I_nf I_nblk I_c I_rel I_head I_live I_user I_keep I_E].
+  pose proof (sinv_write K (src s) (spend s) data off HK I_src Hin) as HS.
+  pose proof (dinv_write K (dst s) (dpend s) (uph s) data off HK I_dst ltac:(rewrite I_nblk; exact Hin)) as HD.
+  assert (T : twin K (dst s) (src s)).
+  { constructor; [apply I_dst|apply I_src|assumption| |]; intros b; rewrite I_nf; auto. }
+  pose proof (twin_write_at K (dst s) (src s) data off HK T ltac:(rewrite I_nblk; exact Hin)) as T1.
+  destruct (write_at true K (src s) data off) as [s1 hs]. destruct (write_at true K (dst s) data off) as [d1 hd].
+  cbn [fst] in T1. destruct HS as (I1 & Ss). destruct HD as (D1 & Sd & _).
+  destruct (st_meta _ _ _ _ Ss) as (M1 & M2 & M3 & M4 & M5 & M6 & M7 & M8).
+  destruct (st_meta _ _ _ _ Sd) as (N1 & N2 & N3 & N4 & N5 & N6 & N7 & N8).
+  constructor; cbn [set_src set_dst src dst spend dpend lowc wired reloaded uph drev];
+    [exact I1|exact D1|congruence|congruence|congruence|assumption| | | | | ].
+  - intros b. rewrite M1. rewrite <- I_nf at 1. rewrite <- N1. rewrite (tw_head _ _ _ T1). now rewrite M1.
+  - intros b. rewrite M1. rewrite <- I_nf at 1. rewrite <- N1. rewrite (tw_top _ _ _ T1). now rewrite M1.
+  - intros J b HJ Hu Hr. rewrite M1 in HJ. rewrite M3 in Hu. rewrite M4 in Hr.
+    rewrite (top_ext (fl d1) (fl (dst s)) J b) by (intros j Hj; apply (st_other _ _ _ _ Sd); lia).
+    rewrite (top_ext (fl s1) (fl (src s)) J b) by (intros j Hj; apply (st_other _ _ _ _ Ss); lia).
+    now apply I_user.
+  - intros J HJ H1 Hu. rewrite M1 in HJ. rewrite M3 in Hu. apply (keeps_same (dst s) d1 N1 N5). now apply I_keep.
+  - intros i b Hi Hext. rewrite M1 in Hi. rewrite M1. rewrite (st_other _ _ _ _ Sd) in Hext by lia.
+    rewrite (st_other _ _ _ _ Ss) by lia.
+    destruct (I_E i b Hi Hext) as [A|A]; [left; assumption|right; now apply (st_head _ _ _ _ Ss)].
+Qed.
+
+Lemma inv2_srchole : forall K c s k a, inv2 K c s -> inv2 K c (step true K s (SrcHole k a)).
+Proof.
+  intros K c s k a I. cbn [step]. destruct (take_hole (src s) (spend s) k a) as [s1 p1] eqn:Et.
+  destruct (sinv_hole K _ _ _ _ _ _ (i2_src _ _ _ I) Et) as (I1 & M & Hlive & Hprot & Hhead & Hcases).
+  destruct M as (M1 & M2 & M3 & M4 & M5 & M6 & M7 & M8).
+  destruct I as [I_src I_dst I_nf I_nblk I_c I_rel I_head I_live I_user I_keep I_E].
+  constructor; cbn [set_src src dst spend dpend lowc wired reloaded uph drev];
+    [exact I1|exact I_dst|congruence|congruence|congruence|assumption| | | | | ].
+  - intros b. rewrite M1, Hhead. apply I_head.
+  - intros b. rewrite M1, Hlive. apply I_live.
+  - intros J b HJ Hu Hr. rewrite M1 in HJ. rewrite M3 in Hu. rewrite M4 in Hr.
+    destruct (Nat.eq_dec J 0) as [->|N0]; [reflexivity|].
+    rewrite Hprot; [now apply I_user|]. apply (sv_prot _ _ _ I_src J); [lia|assumption|assumption].
+  - intros J HJ H1 Hu. rewrite M1 in HJ. rewrite M3 in Hu. now apply I_keep.
+  - intros i b Hi Hext. rewrite M1 in Hi. rewrite M1, Hhead.
+    destruct (I_E i b Hi Hext) as [A|A]; [|right; assumption].
+    destruct (Hcases i b) as [E|(_ & E2 & _)]; [left; congruence|right; assumption].
+Qed.
+
+Lemma inv2_dsthole : forall K c s k a, inv2 K c s -> inv2 K c (step true K s (DstHole k a)).
+Proof.
+  intros K c s k a I. cbn [step]. destruct (take_hole (dst s) (dpend s) k a) as [d1 p1] eqn:Et.
+  destruct (dinv_hole K _ _ _ _ _ _ _ (i2_dst _ _ _ I) Et) as (D1 & M & _ & Htop & Hhead & Hcases).
+  destruct M as (M1 & M2 & M3 & M4 & M5 & M6 & M7 & M8).
+  destruct I as [I_src I_dst I_nf I_nblk I_c I_rel I_head I_live I_user I_keep I_E].
+  constructor; cbn [set_dst src dst spend dpend lowc wired reloaded uph drev];
+    [exact I_src|exact D1|congruence|congruence|assumption|assumption| | | | | ].
+  - intros b. rewrite <- I_nf, Hhead, I_nf. apply I_head.
+  - intros b. rewrite <- I_nf. rewrite Htop by (left; reflexivity). rewrite I_nf. apply I_live.
+  - intros J b HJ Hu Hr. destruct (Nat.eq_dec J 0) as [->|N0]; [reflexivity|].
+    rewrite Htop by (apply I_keep; auto; lia). now apply I_user.
+  - intros J HJ H1 Hu. apply (keeps_same (dst s) d1 M1 M5). now apply I_keep.
+  - intros i b Hi Hext. apply I_E; [assumption|]. destruct (Hcases i b) as [E|E]; congruence.
+Qed.
+
+Lemma inv2_step : forall K c s e, 0 < K -> inv2 K c s -> post_ev e -> inv2 K c (step true K s e).
+Proof.
+  intros K c s e HK I He.
+  destruct e as [off data|off data|i bs|k a|k a|rev| | | |]; cbn [post_ev] in He; try contradiction.
+  - now apply inv2_write.
+  - now apply inv2_srchole.
+  - now apply inv2_dsthole.
+  - (* UlmBegin *)
+    cbn [step]. destruct (uph s) eqn:Eu; try exact I. rewrite (i2_rel _ _ _ I).
+    destruct I as [I_src I_dst I_nf I_nblk I_c I_rel I_head I_live I_user I_keep I_E].
+    constructor; cbn [set_uph src dst spend dpend lowc wired reloaded uph drev]; auto.
+    rewrite Eu in I_dst. now apply dinv_begin.
+  - (* UlmPre *)
+    cbn [step]. destruct (uph s) as [|sc|] eqn:Eu; try exact I.
+    destruct I as [I_src I_dst I_nf I_nblk I_c I_rel I_head I_live I_user I_keep I_E].
+    rewrite Eu in I_dst. pose proof (dinv_pre K _ _ _ I_dst) as H.
+    destruct (scan_step (dst s) sc) as [c1 hs].
+    constructor; cbn [src dst spend dpend lowc wired reloaded uph drev]; auto.
+  - (* UlmMerge *)
+    cbn [step]. destruct (uph s) as [|sc|] eqn:Eu; try exact I.
+    destruct (scan_done (dst s) sc) eqn:Ed; [|exact I].
+    destruct I as [I_src I_dst I_nf I_nblk I_c I_rel I_head I_live I_user I_keep I_E].
+    rewrite Eu in I_dst. pose proof (dinv_merge K _ _ _ I_dst Ed) as H.
+    destruct (ulm_merge (dst s) (pl (sp sc))) as [d1 hs]. destruct H as (D1 & Efl & M).
+    destruct M as (M1 & M2 & M3 & M4 & M5 & M6 & M7 & M8).
+    constructor; cbn [src dst spend dpend lowc wired reloaded uph drev]; rewrite ?Efl; auto; try congruence.
+    intros J HJ H1 Hu. apply (keeps_same (dst s) d1 M1 M5). now apply I_keep.
+Qed.
+
+(** ** running schedules *)
+Definition copied_in (es : list ev) (i b : nat) : Prop := exists bs, In (Copy i bs) es /\ In b bs.
+
+Lemma run_inv1 : forall K c es P s, 0 < K -> inv1 K c P s -> Forall (pre_ev K c) es ->
+  inv1 K c (fun i b => P i b \/ copied_in es i b) (run true K s es).
+Proof.
+  intros K c. induction es as [|e es IH]; intros P s HK I Hall.
+  - cbn [run]. apply (inv1_mono K c P); [exact I|]. intros i b _ [Hp|(bs & [] & _)]. exact Hp.
+  - inversion Hall as [|? ? He Hes]; subst. cbn [run].
+    pose proof (inv1_step K c P s e HK I He) as I1.
+    pose proof (IH _ _ HK I1 Hes) as I2.
+    apply (inv1_mono K c _ _ _ I2). intros i b _ [Hp|(bs & [E|Hin] & Hb)].
+    + left. left. exact Hp.
+    + left. right. subst e. cbn [copied]. auto.
+    + right. exists bs. auto.
+Qed.
+
+Lemma run_inv2 : forall K c es s, 0 < K -> inv2 K c s -> Forall post_ev es -> inv2 K c (run true K s es).
+Proof.
+  intros K c. induction es as [|e es IH]; intros s HK I Hall; [exact I|].
+  inversion Hall as [|? ? He Hes]; subst. cbn [run]. apply IH; auto. now apply inv2_step.
+Qed.
+
+Lemma run_app : forall fx K es1 es2 s, run fx K s (es1 ++ es2) = run fx K (run fx K s es1) es2.
+Proof. intros fx K. induction es1 as [|e es1 IH]; intros es2 s; [reflexivity|]. cbn [run app]. apply IH. Qed.
+
+(** the source's shape is never changed by any event *)
+Lemma step_src_shape : forall K s e, nf (src (step true K s e)) = nf (src s) /\ nblk (src (step true K s e)) = nblk (src s).
+Proof.
+  intros K s e.
+  assert (Hw : forall off data, nf (src (src_write true K s off data)) = nf (src s) /\
+                                nblk (src (src_write true K s off data)) = nblk (src s)).
+  { intros off data. unfold src_write. rewrite write_at_plan.
+    assert (G : forall ps d, nf (fst (exec_plan K d ps)) = nf d /\ nblk (fst (exec_plan K d ps)) = nblk d).
+    { induction ps as [|p ps IH]; intros d; [auto|]. cbn [exec_plan].
+      assert (Hp : nf (fst (exec_prim K d p)) = nf d /\ nblk (fst (exec_prim K d p)) = nblk d).
+      { destruct p as [buf o|st bl]; cbn [exec_prim].
+        - unfold rmw. destruct buf; [auto|].
+          assert (Hr : forall cnt d0 b, nf (snd (full_read K d0 cnt b)) = nf d0 /\ nblk (snd (full_read K d0 cnt b)) = nblk d0).
+          { induction cnt as [|cnt IHc]; intros d0 b; [auto|]. cbn [full_read].
+            destruct (lookup d0 b) as [t l]. specialize (IHc (set_loc d0 l) (S b)).
+            destruct (full_read K (set_loc d0 l) cnt (S b)) as [rest d2]. exact IHc. }
+          specialize (Hr 1 d (o / K)). destruct (full_read K d 1 (o / K)) as [blks d1]. cbn [snd] in Hr.
+          unfold full_write. cbn [fst nf nblk set_loc set_fl]. exact Hr.
+        - unfold full_write. cbn [fst nf nblk set_loc set_fl]. auto. }
+      destruct (exec_prim K d p) as [d1 h1]. cbn [fst] in Hp. specialize (IH d1).
+      destruct (exec_plan K d1 ps) as [d2 h2]. cbn [fst] in *. destruct IH, Hp. split; congruence. }
+    specialize (G (plan K data off) (src s)). destruct (exec_plan K (src s) (plan K data off)) as [d1 h]. exact G. }
+  assert (Hth : forall k a, nf (fst (take_hole (src s) (spend s) k a)) = nf (src s) /\
+                            nblk (fst (take_hole (src s) (spend s) k a)) = nblk (src s)).
+  { intros k a. unfold take_hole. destruct (nth_error (spend s) k); [destruct a|]; cbn [fst set_fl nf nblk]; auto. }
+  destruct e as [off data|off data|i bs|k a|k a|rev| | | |]; cbn [step].
+  - destruct (nblk (src s) * K <? off + length data); [auto|].
+    destruct (reloaded s).
+    + destruct (write_at true K (dst s) data off). cbn [set_dst src]. apply Hw.
+    + cbn [set_dst src]. apply Hw.
+  - destruct (nblk (src s) * K <? off + length data); [auto|apply Hw].
+  - destruct (reloaded s || negb ((1 <=? i) && (i <? nf (dst s)))); auto.
+  - specialize (Hth k a). destruct (take_hole (src s) (spend s) k a). exact Hth.
+  - destruct (take_hole (dst s) (dpend s) k a); auto.
+  - destruct (reloaded s); auto.
+  - destruct (reloaded s); auto.
+  - destruct (uph s); auto. destruct (reloaded s); auto.
+  - destruct (uph s) as [|c0|]; auto. destruct (scan_step (dst s) c0); auto.
+  - destruct (uph s) as [|c0|]; auto. destruct (scan_done (dst s) c0); auto; try (destruct (ulm_merge (dst s) (pl (sp c0))); auto).
+Qed.
+
+Lemma run_src_shape : forall K es s, nf (src (run true K s es)) = nf (src s) /\ nblk (src (run true K s es)) = nblk (src s).
+Proof.
+  intros K. induction es as [|e es IH]; intros s; [auto|]. cbn [run].
+  destruct (IH (step true K s e)) as (A & B). destruct (step_src_shape K s e) as (C & D). split; congruence.
+Qed.
+
+(** ** C07, data half *)
+(** the state at add time: both replicas have just taken the add-time snapshot (fresh, empty heads, no
+    reclamation pending), the destination's files carry the source's member names, and THE TWO CHAINS AGREE
+    AT THE SYNC POINT [c] (member [c] is the newest snapshot that is not copied: the destination's
+    checkpoint, 0 for a new replica): the images of the prefix ending at [c] are equal. *)
+Record start_ok (K c : nat) (s : rb) : Prop := {
+  so_src : inv K (src s);
+  so_pend : spend s = [] /\ dpend s = [];
+  so_nf : nf (dst s) = nf (src s);
+  so_nblk : nblk (dst s) = nblk (src s);
+  so_c : c < nf (src s);
+  so_flags : reloaded s = false /\ wired s = true;
+  so_heads : forall b, fl (src s) (nf (src s)) b = None /\ fl (dst s) (nf (src s)) b = None;
+  so_usr : forall J, usr (dst s) J = usr (src s) J;
+  so_files : dfiles_ok K (dst s);
+  so_sync : forall b, top (fl (dst s)) c b = top (fl (src s)) c b
+}.
+
+Lemma start_inv1 : forall K c s, start_ok K c s -> inv1 K c (fun _ _ => False) s.
+Proof.
+  intros K c s [A (B1 & B2) C D E (F1 & F2) G H I J].
+  constructor; auto.
+  - constructor; [apply A|apply A|rewrite B1; apply hs_sound_nil].
+  - intros b. destruct (G b) as (G1 & G2). congruence.
+  - intros i b _ [].
+  - intros b. left. apply J.
+Qed.
+
+(** every block of every closed file above the sync point is copied at least once *)
+Definition all_copied (c : nat) (s : rb) (es : list ev) : Prop :=
+  forall i b, c < i < nf (src s) -> b < nblk (src s) -> copied_in es i b.
+
+Theorem rebuild_converges : forall K c s0 es1 es2, 0 < K ->
+  start_ok K c s0 ->
+  Forall (pre_ev K c) es1 -> all_copied c s0 es1 ->
+  Forall post_ev es2 ->
+  let s := run true K s0 (es1 ++ DstReload :: es2) in
+  let n := nf (src s) in
+  nf (dst s) = n /\ nblk (dst s) = nblk (src s) /\
+  (* the live images are equal *)
+  image K (dst s) n = image K (src s) n /\
+  (* so is the image of every retained user-created snapshot from the sync point upward *)
+  (forall J, c <= J < n -> usr (src s) J = true -> rmd (src s) J = false ->
+             image K (dst s) J = image K (src s) J) /\
+  (* an automatic snapshot reads the same wherever no newer layer of the source has an extent *)
+  (forall J b, c <= J < n -> (forall i, J < i <= n -> fl (src s) i b = None) ->
+               img K (fl (dst s)) J b = img K (fl (src s)) J b) /\
+  (* the rebuilt replica's block map is well-formed: what it serves is its image, i.e. the source's *)
+  wf K (dst s) /\ fst (read_all K (dst s)) = image K (src s) n.
+Proof.
+  intros K c s0 es1 es2 HK Hs H1 Hcp H2 s n.
+  pose proof (run_inv1 K c es1 _ s0 HK (start_inv1 K c s0 Hs) H1) as I1.
+  set (s1 := run true K s0 es1) in *.
+  destruct (run_src_shape K es1 s0) as (Sn & Sb). fold s1 in Sn, Sb.
+  assert (I2 : inv2 K c (step true K s1 DstReload)).
+  { apply (inv1_reload K c _ s1 I1). intros i b Hi Hb. right. apply Hcp; congruence. }
+  assert (I3 : inv2 K c s).
+  { unfold s. rewrite run_app. cbn [run]. fold s1. now apply run_inv2. }
+  destruct I3 as [I_src I_dst I_nf I_nblk I_c I_rel I_head I_live I_user I_keep I_E]. fold n in I_nf, I_c, I_head, I_live, I_user, I_keep, I_E.
+  pose proof (di_wf _ _ _ _ I_dst) as Wd.
+  split; [assumption|]. split; [assumption|]. split; [|split; [|split; [|split; [assumption|]]]].
+  - apply image_ext; [assumption|]. exact I_live.
+  - intros J HJ Hu Hr. apply image_ext; [assumption|]. intros b. now apply I_user.
+  - intros J b HJ Hno. unfold img.
+    assert (Hh : fl (src s) n b = None) by (apply Hno; lia).
+    assert (Hd : forall i, J < i <= n -> fl (dst s) i b = None).
+    { intros i Hi. destruct (Nat.eq_dec i n) as [->|N]; [rewrite I_head; assumption|].
+      destruct (fl (dst s) i b) eqn:Ex; [|reflexivity]. exfalso.
+      destruct (I_E i b ltac:(lia) ltac:(congruence)) as [A|A]; [apply A; apply Hno; lia|contradiction]. }
+    rewrite <- (top_none_above (fl (dst s)) J n b) by (try lia; exact Hd).
+    rewrite <- (top_none_above (fl (src s)) J n b) by (try lia; exact Hno).
+    now rewrite I_live.
+  - pose proof (read_whole K (dst s) HK Wd) as R. unfold read_all.
+    destruct (read_at K (dst s) 0 (nblk (dst s) * K)) as [x d']. destruct R as (-> & _). cbn [fst].
+    rewrite I_nf. apply image_ext; [assumption|]. exact I_live.
+Qed.
+
+(** ** C19, data half: CloneReplica *)
+(** the source volume goes on (writes, reclamation) while the chain from S = member [sx] downward is copied;
+    S is a retained user-created snapshot, hence never punched *)
+Record cinv1 (K sx : nat) (s0 : dd) (w : bool) (P : nat -> nat -> Prop) (s : rb) : Prop := {
+  c1_src : sinv K (src s) (spend s);
+  c1_sx : 1 <= sx < nf (src s) /\ sx <= snapix (src s);
+  c1_nf : nf (dst s) = S sx;
+  c1_nblk : nblk (dst s) = nblk (src s) /\ nblk (src s) = nblk s0;
+  c1_flags : reloaded s = false /\ dpend s = [] /\ wired s = w;
+  c1_head : forall b, fl (dst s) (S sx) b = None;
+  c1_files : dfiles_ok K (dst s);
+  c1_const : forall i b, 1 <= i <= sx -> fl (src s) i b = fl s0 i b;
+  c1_rel : forall i b, 1 <= i <= sx -> P i b -> fl (dst s) i b = fl s0 i b
+}.
+
+Definition clone_pre_ev (e : ev) : Prop :=
+  match e with SrcWrite _ _ | SrcHole _ _ | Copy _ _ => True | _ => False end.
+
+Lemma cinv1_mono : forall K sx s0 w (P Q : nat -> nat -> Prop) s, cinv1 K sx s0 w P s ->
+  (forall i b, Q i b -> P i b) -> cinv1 K sx s0 w Q s.
+Proof. intros K sx s0 w P Q s I H. destruct I. constructor; auto. Qed.
+
+Lemma cinv1_step : forall K sx s0 w P s e, 0 < K -> cinv1 K sx s0 w P s -> clone_pre_ev e ->
+  cinv1 K sx s0 w (fun i b => P i b \/ copied e i b) (step true K s e).
+Proof.
+  intros K sx s0 w P s e HK I He.
+  destruct e as [off data|off data|i bs|k a|k a|rev| | | |]; cbn [clone_pre_ev] in He; try contradiction.
+  - (* SrcWrite *)
+    apply (cinv1_mono K sx s0 w P); [|intros i b [Hp|[]]; exact Hp]. cbn [step].
+    destruct (Nat.ltb_spec (nblk (src s) * K) (off + length data)) as [Hout|Hin]; [exact I|].
+    unfold src_write. pose proof (sinv_write K (src s) (spend s) data off HK (c1_src _ _ _ _ _ _ I) Hin) as HS.
+    destruct (write_at true K (src s) data off) as [s1 hs]. destruct HS as (I1 & S).
+    destruct (st_meta _ _ _ _ S) as (M1 & M2 & M3 & M4 & M5 & M6 & M7 & M8).
+    destruct I as [C_src (C_sx & C_sn) C_nf (C_nb1 & C_nb2) C_flags C_head C_files C_const C_rel].
+    constructor; cbn [set_src src dst spend dpend lowc wired reloaded uph drev]; auto.
+    + split; congruence.
+    + split; congruence.
+    + intros i b Hi. rewrite (st_other _ _ _ _ S) by lia. now apply C_const.
+  - (* Copy *)
+    cbn [step]. destruct I as [C_src (C_sx & C_sn) C_nf (C_nb1 & C_nb2) (C_f1 & C_f2 & C_f3) C_head C_files C_const C_rel].
+    rewrite C_f1. cbn [orb].
+    destruct ((1 <=? i) && (i <? nf (dst s))) eqn:Eg; cbn [negb].
+    + apply andb_true_iff in Eg. destruct Eg as [G1 G2]. apply Nat.leb_le in G1. apply Nat.ltb_lt in G2.
+      pose proof (sv_wf _ _ _ C_src) as W.
+      constructor; cbn [set_dst copy_file src dst spend dpend lowc wired reloaded uph drev nf nblk fl usr]; auto.
+      * intros b. rewrite fupd_neq by lia. apply C_head.
+      * destruct C_files as (F1 & F2). split; cbn [set_dst copy_file src dst nf nblk fl].
+        -- intros j b Hb. destruct (fupd_cases _ (fl (dst s)) i (copy_blocks (fl (src s) i) (fl (dst s) i) bs) j) as [(-> & E)|(N & E)]; rewrite E.
+           ++ unfold copy_blocks. destruct (existsb (Nat.eqb b) bs); [apply (wf_ext _ _ W); lia|now apply F1].
+           ++ now apply F1.
+        -- intros j b v. destruct (fupd_cases _ (fl (dst s)) i (copy_blocks (fl (src s) i) (fl (dst s) i) bs) j) as [(-> & E)|(N & E)]; rewrite E.
+           ++ unfold copy_blocks. destruct (existsb (Nat.eqb b) bs); [apply (wf_len _ _ W)|apply F2].
+           ++ apply F2.
+      * intros i' b Hi HP.
+        destruct (fupd_cases _ (fl (dst s)) i (copy_blocks (fl (src s) i) (fl (dst s) i) bs) i') as [(-> & E)|(N & E)]; rewrite E.
+        -- unfold copy_blocks. destruct (existsb (Nat.eqb b) bs) eqn:Ex; [now apply C_const|].
+           destruct HP as [Hp|(_ & Hb)]; [now apply C_rel|]. apply existsb_eqb_in in Hb. congruence.
+        -- destruct HP as [Hp|(Ei & _)]; [now apply C_rel|contradiction].
+    + constructor; auto. intros i' b Hi [Hp|(-> & _)]; [now apply C_rel|].
+      apply andb_false_iff in Eg. rewrite C_nf in Eg. destruct Eg as [G|G]; [apply Nat.leb_gt in G|apply Nat.ltb_ge in G]; lia.
+  - (* SrcHole *)
+    apply (cinv1_mono K sx s0 w P); [|intros i b [Hp|[]]; exact Hp]. cbn [step].
+    destruct (take_hole (src s) (spend s) k a) as [s1 p1] eqn:Et.
+    destruct (sinv_hole K _ _ _ _ _ _ (c1_src _ _ _ _ _ _ I) Et) as (I1 & M & _ & _ & _ & Hcases).
+    destruct M as (M1 & M2 & M3 & M4 & M5 & M6 & M7 & M8).
+    destruct I as [C_src (C_sx & C_sn) C_nf (C_nb1 & C_nb2) C_flags C_head C_files C_const C_rel].
+    constructor; cbn [set_src src dst spend dpend lowc wired reloaded uph drev]; auto.
+    + split; congruence.
+    + split; congruence.
+    + intros i b Hi. destruct (Hcases i b) as [E|(_ & _ & E3)]; [rewrite E; now apply C_const|lia].
+Qed.
+
+Lemma cinv1_info : forall K sx s0 w P s rev, cinv1 K sx s0 w P s ->
+  cinv1 K sx s0 true P (step true K s (CloneInfo rev)) /\ drev (step true K s (CloneInfo rev)) = rev.
+Proof.
+  intros K sx s0 w P s rev I. cbn [step].
+  destruct I as [C_src C_sx C_nf C_nb (C_f1 & C_f2 & C_f3) C_head C_files C_const C_rel]. rewrite C_f1.
+  split; [|reflexivity]. constructor; cbn [src dst spend dpend lowc wired reloaded uph drev]; auto.
+Qed.
+
+Record cinv2 (K sx : nat) (s0 : dd) (rev : N) (s : rb) : Prop := {
+  c2_src : sinv K (src s) (spend s);
+  c2_sx : 1 <= sx < nf (src s) /\ sx <= snapix (src s);
+  c2_dst : dinv K (dst s) (dpend s) (uph s);
+  c2_nf : nf (dst s) = S sx;
+  c2_nblk : nblk (dst s) = nblk (src s) /\ nblk (src s) = nblk s0;
+  c2_rel : reloaded s = true;
+  c2_const : forall i b, 1 <= i <= sx -> fl (src s) i b = fl s0 i b;
+  c2_live : forall b, top (fl (dst s)) (S sx) b = top (fl s0) sx b;
+  c2_rev : drev s = rev
+}.
+
+Definition clone_post_ev (e : ev) : Prop :=
+  match e with
+  | SrcWrite _ _ | SrcHole _ _ | DstHole _ _ | UlmBegin | UlmPre | UlmMerge => True
+  | _ => False
+  end.
+
+Lemma cinv1_reload : forall K sx s0 P s, cinv1 K sx s0 true P s ->
+  (forall i b, 1 <= i <= sx -> b < nblk (src s) -> P i b) ->
+  cinv2 K sx s0 (drev s) (step true K s DstReload).
+Proof.
+  intros K sx s0 P s I Hall. cbn [step].
+  destruct I as [C_src (C_sx & C_sn) C_nf (C_nb1 & C_nb2) (C_f1 & C_f2 & C_f3) C_head (F1 & F2) C_const C_rel].
+  rewrite C_f1, C_f3. set (d := dst s) in *.
+  assert (Ed : dst_reload true d =
+               mkdd (nf d) (fl d) (nm d) (usr d) (rmd d) (aligned_ucs d) (last_true (aligned_ucs d) (nf d) 0)
+                    (fun _ => 0) (nblk d) true) by reflexivity.
+  pose proof (sv_wf _ _ _ C_src) as W.
+  constructor; cbn [src dst spend dpend lowc wired reloaded uph drev]; rewrite ?Ed; cbn [nf fl nblk]; auto.
+  - constructor.
+    + constructor; cbn [nf fl loc nblk]; [lia|intros b; left; reflexivity|assumption|assumption].
+    + intros k Hk HF. cbn [nf ucs snapix] in *. apply last_true_ge; assumption.
+    + rewrite C_f2. apply pend_cov_nil.
+    + rewrite C_f2. intros f s' l [].
+    + exact I.
+  - intros b. rewrite top_S, C_head. apply top_ext. intros i Hi.
+    destruct (Nat.lt_ge_cases b (nblk (src s))) as [Hb|Hb]; [apply C_rel; auto|].
+    rewrite F1 by (rewrite C_nb1; assumption). rewrite <- C_const by assumption. symmetry. now apply (wf_ext _ _ W).
+Qed.
+
+Lemma cinv2_step : forall K sx s0 rev s e, 0 < K -> cinv2 K sx s0 rev s -> clone_post_ev e ->
+  cinv2 K sx s0 rev (step true K s e).
+Proof.
+  intros K sx s0 rev s e HK I He.
+  destruct e as [off data|off data|i bs|k a|k a|rv| | | |]; cbn [clone_post_ev] in He; try contradiction.
+  - (* SrcWrite *)
+    cbn [step]. destruct (Nat.ltb_spec (nblk (src s) * K) (off + length data)) as [Hout|Hin]; [exact I|].
+    unfold src_write. pose proof (sinv_write K (src s) (spend s) data off HK (c2_src _ _ _ _ _ I) Hin) as HS.
+    destruct (write_at true K (src s) data off) as [s1 hs]. destruct HS as (I1 & S).
+    destruct (st_meta _ _ _ _ S) as (M1 & M2 & M3 & M4 & M5 & M6 & M7 & M8).
+    destruct I as [C_src (C_sx & C_sn) C_dst C_nf (C_nb1 & C_nb2) C_rel C_const C_live C_rev].
+    constructor; cbn [set_src src dst spend dpend lowc wired reloaded uph drev]; auto.
+    + split; congruence.
+    + split; congruence.
+    + intros i b Hi. rewrite (st_other _ _ _ _ S) by lia. now apply C_const.
+  - (* SrcHole *)
+    cbn [step]. destruct (take_hole (src s) (spend s) k a) as [s1 p1] eqn:Et.
+    destruct (sinv_hole K _ _ _ _ _ _ (c2_src _ _ _ _ _ I) Et) as (I1 & M & _ & _ & _ & Hcases).
+    destruct M as (M1 & M2 & M3 & M4 & M5 & M6 & M7 & M8).
+    destruct I as [C_src (C_sx & C_sn) C_dst C_nf (C_nb1 & C_nb2) C_rel C_const C_live C_rev].
+    constructor; cbn [set_src src dst spend dpend lowc wired reloaded uph drev]; auto.
+    + split; congruence.
+    + split; congruence.
+    + intros i b Hi. destruct (Hcases i b) as [E|(_ & _ & E3)]; [rewrite E; now apply C_const|lia].
+  - (* DstHole *)
+    cbn [step]. destruct (take_hole (dst s) (dpend s) k a) as [d1 p1] eqn:Et.
+    destruct (dinv_hole K _ _ _ _ _ _ _ (c2_dst _ _ _ _ _ I) Et) as (D1 & M & _ & Htop & _ & _).
+    destruct M as (M1 & M2 & M3 & M4 & M5 & M6 & M7 & M8).
+    destruct I as [C_src C_sx C_dst C_nf (C_nb1 & C_nb2) C_rel C_const C_live C_rev].
+    constructor; cbn [set_dst src dst spend dpend lowc wired reloaded uph drev]; auto; try congruence.
+    + split; congruence.
+    + intros b. rewrite <- C_nf. rewrite Htop by (left; reflexivity). rewrite C_nf. apply C_live.
+  - (* UlmBegin *)
+    cbn [step]. destruct (uph s) eqn:Eu; try exact I. rewrite (c2_rel _ _ _ _ _ I).
+    destruct I as [C_src C_sx C_dst C_nf C_nb C_rel C_const C_live C_rev].
+    constructor; cbn [set_uph src dst spend dpend lowc wired reloaded uph drev]; auto.
+    rewrite Eu in C_dst. now apply dinv_begin.
+  - (* UlmPre *)
+    cbn [step]. destruct (uph s) as [|sc|] eqn:Eu; try exact I.
+    destruct I as [C_src C_sx C_dst C_nf C_nb C_rel C_const C_live C_rev].
+    rewrite Eu in C_dst. pose proof (dinv_pre K _ _ _ C_dst) as H.
+    destruct (scan_step (dst s) sc) as [c1 hs].
+    constructor; cbn [src dst spend dpend lowc wired reloaded uph drev]; auto.
+  - (* UlmMerge *)
+    cbn [step]. destruct (uph s) as [|sc|] eqn:Eu; try exact I.
+    destruct (scan_done (dst s) sc) eqn:Ed; [|exact I].
+    destruct I as [C_src C_sx C_dst C_nf (C_nb1 & C_nb2) C_rel C_const C_live C_rev].
+    rewrite Eu in C_dst. pose proof (dinv_merge K _ _ _ C_dst Ed) as H.
+    destruct (ulm_merge (dst s) (pl (sp sc))) as [d1 hs]. destruct H as (D1 & Efl & M).
+    destruct M as (M1 & M2 & M3 & M4 & M5 & M6 & M7 & M8).
+    constructor; cbn [src dst spend dpend lowc wired reloaded uph drev]; rewrite ?Efl; auto; try congruence.
+    split; congruence.
+Qed.
+
+Lemma run_cinv1 : forall K sx s0 w es P s, 0 < K -> cinv1 K sx s0 w P s -> Forall clone_pre_ev es ->
+  cinv1 K sx s0 w (fun i b => P i b \/ copied_in es i b) (run true K s es).
+Proof.
+  intros K sx s0 w. induction es as [|e es IH]; intros P s HK I Hall.
+  - cbn [run]. apply (cinv1_mono K sx s0 w P); [exact I|]. intros i b [Hp|(bs & [] & _)]. exact Hp.
+  - inversion Hall as [|? ? He Hes]; subst. cbn [run].
+    pose proof (cinv1_step K sx s0 w P s e HK I He) as I1.
+    pose proof (IH _ _ HK I1 Hes) as I2.
+    apply (cinv1_mono K sx s0 w _ _ _ I2). intros i b [Hp|(bs & [E|Hin] & Hb)].
+    + left. left. exact Hp.
+    + left. right. subst e. cbn [copied]. auto.
+    + right. exists bs. auto.
+Qed.
+
+Lemma run_cinv2 : forall K sx s0 rev es s, 0 < K -> cinv2 K sx s0 rev s -> Forall clone_post_ev es ->
+  cinv2 K sx s0 rev (run true K s es).
+Proof.
+  intros K sx s0 rev. induction es as [|e es IH]; intros s HK I Hall; [exact I|].
+  inversion Hall as [|? ? He Hes]; subst. cbn [run]. apply IH; auto. now apply cinv2_step.
+Qed.
+
+Lemma image_ext2 : forall K d d' j j', nblk d' = nblk d ->
+  (forall b, top (fl d') j' b = top (fl d) j b) -> image K d' j' = image K d j.
+Proof.
+  intros K d d' j j' En H. unfold image. rewrite En. f_equal. apply map_ext. intros b. unfold img. now rewrite H.
+Qed.
+
+Lemma run_pre_drev : forall K es s, Forall clone_pre_ev es -> drev (run true K s es) = drev s.
+Proof.
+  intros K. induction es as [|e es IH]; intros s Hall; [reflexivity|].
+  inversion Hall as [|? ? He Hes]; subst. cbn [run]. rewrite (IH _ Hes).
+  destruct e; cbn [clone_pre_ev] in He; try contradiction; cbn [step].
+  - destruct (nblk (src s) * K <? off + length data); [reflexivity|]. unfold src_write.
+    destruct (write_at true K (src s) data off). reflexivity.
+  - destruct (reloaded s || negb ((1 <=? i) && (i <? nf (dst s)))); reflexivity.
+  - destruct (take_hole (src s) (spend s) k apply). reflexivity.
+Qed.
+
+(** the clone of snapshot S = member [sx] of a source in service: a fresh replica whose directory
+    receives the chain from S downward *)
+Record clone_start_ok (K sx : nat) (s : rb) : Prop := {
+  co_src : inv K (src s);
+  co_pend : spend s = [] /\ dpend s = [];
+  co_sx : 1 <= sx < nf (src s) /\ usr (src s) sx = true /\ rmd (src s) sx = false;
+  co_nf : nf (dst s) = S sx;
+  co_nblk : nblk (dst s) = nblk (src s);
+  co_flags : reloaded s = false;
+  co_head : forall b, fl (dst s) (S sx) b = None;
+  co_files : dfiles_ok K (dst s)
+}.
+
+Theorem clone_image : forall K sx s0 es1 es1' es2 rev, 0 < K ->
+  clone_start_ok K sx s0 ->
+  Forall clone_pre_ev es1 -> Forall clone_pre_ev es1' ->
+  (forall i b, 1 <= i <= sx -> b < nblk (src s0) -> copied_in (es1 ++ es1') i b) ->
+  Forall clone_post_ev es2 ->
+  let s := run true K s0 (es1 ++ CloneInfo rev :: es1' ++ DstReload :: es2) in
+  nf (dst s) = S sx /\
+  (* the clone's live image is the image of S, as the source held it at the start and holds it now *)
+  image K (dst s) (S sx) = image K (src s0) sx /\
+  image K (src s) sx = image K (src s0) sx /\
+  (* and this is what the clone serves through its block map *)
+  wf K (dst s) /\ fst (read_all K (dst s)) = image K (src s0) sx /\
+  (* with the counter handed to UpdateCloneInfo *)
+  drev s = rev.
+Proof.
+  intros K sx s0 es1 es1' es2 rev HK Hs H1 H1' Hcp H2 s.
+  destruct Hs as [A (B1 & B2) (C1 & C2 & C3) D E F G H].
+  assert (I0 : cinv1 K sx (src s0) (wired s0) (fun _ _ => False) s0).
+  { constructor; auto.
+    - constructor; [apply A|apply A|rewrite B1; apply hs_sound_nil].
+    - split; [assumption|]. apply (inv_prot _ _ A sx); [lia|assumption|assumption].
+    - intros i b _ []. }
+  pose proof (run_cinv1 K sx _ _ es1 _ s0 HK I0 H1) as I1.
+  set (s1 := run true K s0 es1) in *.
+  destruct (cinv1_info K sx _ _ _ s1 rev I1) as (I2 & Erev).
+  set (s2 := step true K s1 (CloneInfo rev)) in *.
+  pose proof (run_cinv1 K sx _ _ es1' _ s2 HK I2 H1') as I3.
+  set (s3 := run true K s2 es1') in *.
+  assert (Edrev : drev s3 = rev).
+  { unfold s3. rewrite (run_pre_drev K es1' s2 H1'). exact Erev. }
+  assert (Hnb : nblk (src s3) = nblk (src s0)) by (destruct (c1_nblk _ _ _ _ _ _ I3); assumption).
+  assert (I4 : cinv2 K sx (src s0) rev (step true K s3 DstReload)).
+  { rewrite <- Edrev. apply (cinv1_reload K sx _ _ s3 I3). intros i b Hi Hb.
+    rewrite Hnb in Hb. destruct (Hcp i b Hi Hb) as (bs & Hin & Hbs). apply in_app_or in Hin.
+    destruct Hin as [Hin|Hin]; [left; right; exists bs; auto|right; exists bs; auto]. }
+  assert (I5 : cinv2 K sx (src s0) rev s).
+  { unfold s. rewrite run_app. cbn [run]. fold s1. fold s2. rewrite run_app. fold s3. cbn [run]. now apply run_cinv2. }
+  destruct I5 as [C_src (C_sx & C_sn) C_dst C_nf (C_nb1 & C_nb2) C_rel C_const C_live C_rev].
+  pose proof (di_wf _ _ _ _ C_dst) as Wd.
+  split; [assumption|]. split; [|split; [|split; [assumption|split; [|assumption]]]].
+  - apply image_ext2; [congruence|]. exact C_live.
+  - apply image_ext; [assumption|]. intros b. apply top_ext. intros i Hi. now apply C_const.
+  - pose proof (read_whole K (dst s) HK Wd) as R. unfold read_all.
+    destruct (read_at K (dst s) 0 (nblk (dst s) * K)) as [x d']. destruct R as (-> & _). cbn [fst].
+    rewrite C_nf. apply image_ext2; [congruence|]. exact C_live.
+Qed.
+
+(** ** outside the hypotheses: what the faithful model does (both replayed on the real code) *)
+(** (1) [pre_ev] asks for block-aligned foreground writes before the Reload.  A write of two 512-byte
+    sectors inside block 2, acknowledged while the new replica is still WO: the source completes the block
+    from its own data, the destination from its own (empty) chain -- diffDisk.readModifyWrite does not know
+    that the replica is being rebuilt.  Everything else is as the theorem wants it: fresh destination
+    (sync point 0), the whole chain copied, Reload, UpdateLUNMap. *)
+Definition rmw_case : rcase :=
+  mkrcase 8 8 false false [Write 0 (repeat 1%N 32)] None [] 0%N
+          [MBoth 17 (repeat 3%N 2); MCopy 1; MReload; MUlm []]
+          [] (mkrside 0 0 [] [] [] [] 0) (mkrside 0 0 [] [] [] [] 0) 0%N 0%N.
+
+Theorem rebuild_unaligned_refuted :
+  let s := fst (exec true 8 (init_case true rmw_case) (rc_ev rmw_case)) in
+  reloaded s = true /\ uph s = UDone /\
+  (* the source holds 1 1 | 1 3 3 1 1 1 1 1 in block 2, the rebuilt replica 0 3 3 0 0 0 0 0 *)
+  block_of 8 (image 8 (src s) (nf (src s))) 2 = [1; 3; 3; 1; 1; 1; 1; 1]%N /\
+  block_of 8 (image 8 (dst s) (nf (dst s))) 2 = [0; 3; 3; 0; 0; 0; 0; 0]%N /\
+  model_oracle true rmw_case = false.
+Proof. vm_compute. repeat split; reflexivity. Qed.
+
+(** (2) [start_ok] asks that the two chains agree at the sync point.  The code does not guarantee it when
+    the destination has diverged: a replica that wrote block 1 on its own (a write the source never got)
+    punched that block out of the automatic snapshot below -- the block was shadowed by its head -- and
+    the rebuild then replaces exactly the file that did the shadowing.  Snapshot 2 is the sync point; it is
+    not copied. *)
+Definition diverged_case : rcase :=
+  mkrcase 8 4 false false [Write 8 (repeat 2%N 8); Snap 2%N false] (Some 2) [Write 8 (repeat 6%N 8)] 0%N
+          [MCopy 2; MReload; MUlm []]
+          [] (mkrside 0 0 [] [] [] [] 0) (mkrside 0 0 [] [] [] [] 0) 0%N 0%N.
+
+Theorem rebuild_diverged_refuted :
+  let s0 := init_case true diverged_case in
+  let s := fst (exec true 8 s0 (rc_ev diverged_case)) in
+  (* before the rebuild the destination's sync-point image already lacks the block *)
+  block_of 8 (image 8 (src s0) 1) 1 = repeat 2%N 8 /\ block_of 8 (image 8 (dst s0) 1) 1 = repeat 0%N 8 /\
+  (* and after it so does its live image *)
+  block_of 8 (image 8 (src s) (nf (src s))) 1 = repeat 2%N 8 /\
+  block_of 8 (image 8 (dst s) (nf (dst s))) 1 = repeat 0%N 8 /\
+  model_oracle true diverged_case = false.
+Proof. vm_compute. repeat split; reflexivity. Qed.
+
+(** the same two cases with the offending ingredient removed satisfy the oracle (sanity of the witnesses) *)
+Example rmw_case_aligned_ok :
+  model_oracle true (mkrcase 8 8 false false [Write 0 (repeat 1%N 32)] None [] 0%N
+                             [MBoth 16 (repeat 3%N 8); MCopy 1; MReload; MUlm []]
+                             [] (mkrside 0 0 [] [] [] [] 0) (mkrside 0 0 [] [] [] [] 0) 0%N 0%N) = true.
+Proof. vm_compute. reflexivity. Qed.
+
+Example diverged_case_in_sync_ok :
+  model_oracle true (mkrcase 8 4 false false [Write 8 (repeat 2%N 8); Snap 2%N false] (Some 2) [] 0%N
+                             [MCopy 2; MReload; MUlm []]
+                             [] (mkrside 0 0 [] [] [] [] 0) (mkrside 0 0 [] [] [] [] 0) 0%N 0%N) = true.
+Proof. vm_compute. reflexivity. Qed.
+
+(** ** the hypotheses are satisfiable: a new (empty) replica is added to any source *)
+Definition fresh_dir (s : dd) : dd :=
+  mkdd (nf s) (fun _ => fempty) (nm s) (usr s) (rmd s) (fun _ => false) 0 (fun _ => 0) (nblk s) false.
+
+Lemma start_ok_fresh : forall K s, inv K s -> (forall b, fl s (nf s) b = None) ->
+  start_ok K 0 (rebuild_init s (fresh_dir s) 0).
+Proof.
+  intros K s I Hh. pose proof (wf_nf _ _ (inv_wf _ _ I)) as Hnf.
+  constructor; cbn [rebuild_init fresh_dir src dst spend dpend lowc wired reloaded uph drev nf nblk fl usr]; auto.
+  - intros b. split; [apply Hh|]. now rewrite fupd_eq.
+  - split; cbn [nblk fl].
+    + intros j b _. unfold fupd. destruct (j =? nf s); reflexivity.
+    + intros j b v. unfold fupd. destruct (j =? nf s); discriminate.
+Qed.
+
+Lemma snapshot_head_empty : forall d name user, snd (snapshot d name user) = ROk ->
+  forall b, fl (fst (snapshot d name user)) (nf (fst (snapshot d name user))) b = None.
+Proof.
+  intros d name user H b. unfold snapshot in *.
+  destruct (N.eqb name 0 || negb (find_name d name (nf d) =? 0)); [discriminate|].
+  destruct (max_chain <? nf d + 2); [discriminate|]. cbn [fst nf fl]. now rewrite fupd_eq.
+Qed.
+
+Lemma snapshot_inv : forall K d name user, inv K d -> snd (snapshot d name user) = ROk ->
+  inv K (fst (snapshot d name user)).
+Proof.
+  intros K d name user I H. destruct (snapshot d name user) as [d1 r] eqn:E. cbn [snd fst] in *. subst r.
+  now destruct (snapshot_ok K d name user d1 I E) as (I1 & _).
+Qed.
+
+Lemma write_inv : forall K d data off ch, 0 < K -> inv K d -> off + length data <= nblk d * K ->
+  inv K (punched (fst (write_at true K d data off)) (snd (write_at true K d data off)) ch).
+Proof.
+  intros K d data off ch HK I Hr. pose proof (write_exact K d data off ch HK I Hr) as H.
+  destruct (write_at true K d data off) as [dw hs]. now destruct H as (I1 & _).
+Qed.
+
+(** a source with history: blocks 0-1 written, user snapshot 1, block 1 rewritten, the add-time snapshot *)
+Definition ex_d1 : dd :=
+  let w := write_at true 8 (init 4 true) (repeat 1%N 16) 0 in punched (fst w) (snd w) [].
+Definition ex_d2 : dd := fst (snapshot ex_d1 1%N true).
+Definition ex_d3 : dd := let w := write_at true 8 ex_d2 (repeat 2%N 8) 8 in punched (fst w) (snd w) [].
+Definition ex_src : dd := fst (snapshot ex_d3 900%N false).
+
+Lemma ex_src_ok : inv 8 ex_src /\ (forall b, fl ex_src (nf ex_src) b = None) /\ nf ex_src = 3 /\ nblk ex_src = 4.
+Proof.
+  assert (I1 : inv 8 ex_d1) by (apply write_inv; [lia|apply inv_init|vm_compute; lia]).
+  assert (I2 : inv 8 ex_d2) by (apply snapshot_inv; [exact I1|vm_compute; reflexivity]).
+  assert (I3 : inv 8 ex_d3) by (apply write_inv; [lia|exact I2|vm_compute; lia]).
+  assert (E4 : snd (snapshot ex_d3 900%N false) = ROk) by (vm_compute; reflexivity).
+  split; [now apply snapshot_inv|]. split; [now apply snapshot_head_empty|]. split; vm_compute; reflexivity.
+Qed.
+
+Definition ex_s0 : rb := rebuild_init ex_src (fresh_dir ex_src) 0.
+Definition ex_es1 : list ev :=
+  [BothWrite 0 (repeat 7%N 8); Copy 1 (seq 0 4); SrcHole 0 true; BothWrite 8 (repeat 8%N 16); Copy 2 (seq 0 4)].
+Definition ex_es2 : list ev :=
+  [BothWrite 3 (repeat 9%N 2); UlmBegin; UlmPre; UlmPre; BothWrite 16 (repeat 5%N 8); DstHole 0 true]
+  ++ repeat UlmPre 15 ++ [UlmMerge; BothWrite 25 (repeat 6%N 3); SrcHole 0 false; DstHole 0 true].
+
+(** a user-created snapshot above the sync point, writes on both sides of the Reload (unaligned after it), a
+    write in the middle of the preload, holes applied and dropped: the theorem's hypotheses hold, the merge
+    ran, and the volume is not empty *)
+Example rebuild_hypotheses_satisfiable :
+  start_ok 8 0 ex_s0 /\ Forall (pre_ev 8 0) ex_es1 /\ all_copied 0 ex_s0 ex_es1 /\ Forall post_ev ex_es2 /\
+  usr (src ex_s0) 1 = true /\
+  let s := run true 8 ex_s0 (ex_es1 ++ DstReload :: ex_es2) in
+  uph s = UDone /\ image 8 (src s) 3 = [7;7;7;9;9;7;7;7; 8;8;8;8;8;8;8;8; 5;5;5;5;5;5;5;5; 0;6;6;6;0;0;0;0]%N.
+Proof.
+  destruct ex_src_ok as (I & Hh & En & Eb).
+  split; [now apply start_ok_fresh|]. split.
+  { repeat constructor; vm_compute; auto. }
+  split.
+  { intros i b Hi Hb. cbn [ex_s0 rebuild_init src] in Hi, Hb. rewrite En in Hi. rewrite Eb in Hb.
+    assert (Hi' : i = 1 \/ i = 2) by lia.
+    destruct Hi' as [-> | ->]; [exists (seq 0 4)|exists (seq 0 4)]; (split; [cbn; tauto|apply in_seq; lia]). }
+  split; [repeat constructor|]. split; vm_compute; auto.
+Qed.
+
+Lemma clone_start_ok_init : forall K s sx, inv K s -> 1 <= sx < nf s -> usr s sx = true -> rmd s sx = false ->
+  clone_start_ok K sx (clone_init s sx).
+Proof.
+  intros K s sx I Hsx Hu Hr.
+  constructor; cbn [clone_init src dst spend dpend lowc wired reloaded uph drev nf nblk fl]; auto.
+  split; cbn [nblk fl]; [reflexivity|discriminate].
+Qed.
+
+(** the source of the example above one step earlier (user snapshot 1 taken, block 1 rewritten since), cloned
+    while it keeps taking writes *)
+Example clone_hypotheses_satisfiable :
+  let s0 := clone_init ex_d3 1 in
+  let es1 := [Copy 1 (seq 0 2); SrcWrite 4 (repeat 3%N 8)] in
+  let es1' := [SrcHole 0 true; Copy 1 (seq 2 2)] in
+  let es2 := UlmBegin :: repeat UlmPre 10 ++ [SrcWrite 0 (repeat 4%N 32); UlmMerge; DstHole 0 true] in
+  clone_start_ok 8 1 s0 /\ Forall clone_pre_ev es1 /\ Forall clone_pre_ev es1' /\
+  (forall i b, 1 <= i <= 1 -> b < nblk (src s0) -> copied_in (es1 ++ es1') i b) /\ Forall clone_post_ev es2 /\
+  let s := run true 8 s0 (es1 ++ CloneInfo 7%N :: es1' ++ DstReload :: es2) in
+  uph s = UDone /\ image 8 (dst s) 2 = (repeat 1%N 16 ++ repeat 0%N 16)%list /\
+  image 8 (src s) (nf (src s)) = repeat 4%N 32.
+Proof.
+  assert (I1 : inv 8 ex_d1) by (apply write_inv; [lia|apply inv_init|vm_compute; lia]).
+  assert (I2 : inv 8 ex_d2) by (apply snapshot_inv; [exact I1|vm_compute; reflexivity]).
+  assert (I3 : inv 8 ex_d3) by (apply write_inv; [lia|exact I2|vm_compute; lia]).
+  cbv zeta. split; [apply clone_start_ok_init; [exact I3|vm_compute; lia|vm_compute; reflexivity|vm_compute; reflexivity]|].
+  split; [repeat constructor|]. split; [repeat constructor|]. split.
+  { intros i b Hi Hb. assert (i = 1) by lia. subst i.
+    assert (Eb : nblk (src (clone_init ex_d3 1)) = 4) by (vm_compute; reflexivity). rewrite Eb in Hb.
+    destruct (Nat.lt_ge_cases b 2); [exists (seq 0 2)|exists (seq 2 2)]; (split; [cbn; tauto|apply in_seq; lia]). }
+  split; [repeat constructor|]. vm_compute. auto.
 Qed.
